@@ -52,7 +52,7 @@ def env_offline():
 def build(ov, package, extra_args=(), log=None, timeout=1800):
     """Compile all harnesses of `package` in overlay `ov`. Returns {pretty_name: meta}."""
     tdir = os.path.join(ov.target, package)
-    cmd = ["cargo", "kani", "-p", package, "--target-dir", tdir, "--only-codegen"] + list(extra_args)
+    cmd = ["cargo", "kani", "-p", package, "--target-dir", tdir, "--only-codegen", "-Z", "unstable-options"] + list(extra_args)
     t0 = time.time()
     p = subprocess.run(cmd, cwd=ov.root, env=env_offline(), stdout=subprocess.PIPE, stderr=subprocess.STDOUT,
                        text=True, timeout=timeout)
@@ -242,6 +242,7 @@ def run_one(ov, meta, harness, workroot):
     pm = symtab.replace(".symtab.out", ".pretty_name_map.json")
     us_entries, us_resolved = resolve_unwindset(harness, hout, wd, pm)
     r["unwindset"] = [{"function": p, "bound": b} for p, b in us_resolved]
+    r["unwindset_entries"] = us_entries
     if any(p.startswith("<no function matches") for p, _ in us_resolved):
         # a function named in the harness spec no longer exists: not a pass, not a violation
         r["unwindset_unresolved"] = [p for p, _ in us_resolved if p.startswith("<no function")]
@@ -320,16 +321,22 @@ def run(ov, metas, harnesses, jobs=4, progress=None):
     return results
 
 
-def concrete_playback(ov, package, meta, harness, extra_args=(), timeout=1800):
+def concrete_playback(ov, package, meta, harness, extra_args=(), timeout=1800, unwindset_entries=()):
     """Ask Kani itself for the concrete values of a failing harness (-Z concrete-playback, print).
     Returns the text of the generated unit test, or None."""
     tdir = os.path.join(ov.target, package + "-playback")
     cmd = ["cargo", "kani", "-p", package, "--target-dir", tdir, "--harness", meta["pretty_name"], "--exact",
-           "-Z", "concrete-playback", "--concrete-playback=print", "--output-format", "terse"] + list(extra_args)
-    if harness.unwind is not None:
+           "-Z", "concrete-playback", "-Z", "unstable-options", "--concrete-playback=print", "--output-format", "terse"] + list(extra_args)
+    if unwindset_entries:
+        # mangled names are stable across Kani builds of the same overlay (same -C metadata)
+        cmd += ["--cbmc-args"] + (["--unwind", str(harness.unwind)] if harness.unwind is not None else []) + ["--unwindset", ",".join(unwindset_entries)]
+    elif harness.unwind is not None:
         cmd += ["--default-unwind", str(harness.unwind)]
-    p = subprocess.run(cmd, cwd=ov.root, env=env_offline(), stdout=subprocess.PIPE, stderr=subprocess.STDOUT, text=True,
-                       timeout=timeout)
+    try:
+        p = subprocess.run(cmd, cwd=ov.root, env=env_offline(), stdout=subprocess.PIPE, stderr=subprocess.STDOUT, text=True,
+                           timeout=timeout)
+    except subprocess.TimeoutExpired:
+        return None, "cargo kani concrete playback timed out after %ds" % timeout
     blocks = re.findall(r"```\n?(.*?)```", p.stdout, re.S)
     tests = []
     for b in blocks:
